@@ -267,6 +267,12 @@ def write_replay(pid, payload):
     while os.path.exists(os.path.join(d, "%s-%d.json" % (pid, n))):
         n += 1
     p = os.path.join(d, "%s-%d.json" % (pid, n))
+    payload = dict(payload)
+    payload.setdefault("how_to_replay", "VERIF_SEED=%s %s %s --tier %s   (re-runs the generator with the same seed against %s; "
+                       "each entry of 'failing' names the operation, the input - as a Coq term of Model/Vocab.v or as the literal bytes - "
+                       "and what was expected and observed; 'index' is the position in the run)"
+                       % (payload.get("seed", 1), os.path.join(ROOT, "bin", "check"), pid, payload.get("tier", "quick"), REPO))
+    payload.setdefault("tree", tree_hash())
     with open(p, "w") as f:
         json.dump(payload, f, indent=1)
         f.write("\n")
